@@ -298,5 +298,5 @@ const ruleC05 = "rapid draws a start state (fresh, one-byte preset, two-byte pre
 func TestC05(t *testing.T) {
 	r := begin(t, "C05", "exploration", ruleC05)
 	defer r.finish()
-	subC05.rapidRun(r, n(20000, 300000), genExtSeqCase)
+	subC05.rapidRun(r, n(20000, 1200000), genExtSeqCase)
 }
